@@ -37,18 +37,45 @@ META = {
 }
 
 
+# ---- synthetic values: memory types mixed inside one value (no shipped value is like that), declared
+# through the library's own metaclass in a lockable bank of the harness
+
+SYN_BANK = L.MemoryBank(address=0xBD, last_address=0x40, has_lock=True)
+BANKS = dict(MM.BANK_HEADERS, SYN_BANK=("harness", 0xBD, 0x40, True, False))
+SYN = []
+
+
+def _declare_synthetic():
+    first = 3
+    for name, types in (("SynRwRoRw", ["NVM_RW", "NVM_RO", "NVM_RW"]), ("SynRwRwRom", ["NVM_RW", "RAM_RW", "ROM"]),
+                        ("SynRwNone", ["RAM_RW", None]), ("SynRoRw", ["RAM_RO", "NVM_RW"]),
+                        ("SynLockRw", ["NVM_RW_L", "NVM_RW"]), ("SynRwLock", ["RAM_RW", "NVM_RW", "NVM_RW_L"])):
+        attrs = {"bank": SYN_BANK,
+                 "locations": tuple(L.MemoryLocation(first + i, type_=(L.MemoryType[t] if t else None))
+                                    for i, t in enumerate(types))}
+        cls = type(L.NumericValue)(name, (L.NumericValue,), attrs)
+        SYN.append((("harness", "SYN_BANK", name, 0xBD, first, len(types), list(types), "num", None), cls))
+        first += len(types)
+
+
+_declare_synthetic()
+
+
 def _values():
     out = []
     for row in MM.ROWS:
         cls = getattr(importlib.import_module(row[0]), row[2], None)
         if cls is not None:
             out.append((row, cls))
-    return out
+    return out + SYN
 
 
 def _writable(row):
     mt = row[6]
-    types = [mt] * row[5] if isinstance(mt, str) else [mt[0]] + [mt[1]] * (row[5] - 1)
+    if isinstance(mt, list):
+        types = list(mt)
+    else:
+        types = [mt] * row[5] if isinstance(mt, str) else [mt[0]] + [mt[1]] * (row[5] - 1)
     return all(t in MM.WRITABLE_TYPES for t in types), types
 
 
@@ -60,7 +87,7 @@ def h_write(ctx, vi, kind, fault_name, nbytes, force_unlock, ignore_feedback):
     mod, bname, name, bankno, first, width, mtype, vkind, param = row
     tag = "%s/%s/%s" % (bname, name, kind)
     can, types = _writable(row)
-    has_lock = MM.BANK_HEADERS[bname][3] or MM.BANK_HEADERS[bname][4]
+    has_lock = BANKS[bname][3] or BANKS[bname][4]
     locs = list(range(first, first + width))
     n = width if nbytes is None else nbytes
     data = [ctx.fresh("w%d" % i, 0, 255) for i in range(n)]
